@@ -92,45 +92,49 @@ def st_annotated(tier):
     @st.composite
     def gen(draw):
         runs = []
+        lengths = [1, 1, 1, 2, 2, 3, 4, 6, 9]
         empty = draw(st.sampled_from([False] * 19 + [True]))
         if not empty:
-            n_runs = draw(st.integers(1, max_runs))
             chain = draw(st.sampled_from(CHAINS))
             res = draw(st.integers(-3, 30))
             ins = draw(st.sampled_from(INS))
             name = draw(st.sampled_from(NAMES))
+            first_len = draw(st.sampled_from(lengths))
+            # the following runs as a list (shrinks by deleting runs)
+            steps = draw(
+                st.lists(
+                    st.tuples(st.sampled_from(MOVES), st.integers(0, 5), st.sampled_from(lengths)),
+                    max_size=max_runs - 1,
+                )
+            )
             first_chain = chain
             total = 0
-            for r in range(n_runs):
-                if r > 0:
-                    move = draw(st.sampled_from(MOVES))
-                    k = draw(st.integers(0, 5))
-                    if move == "next_res":
-                        res += 1
-                        name = NAMES[k % len(NAMES)]
-                        ins = ""
-                    elif move == "merge":
-                        pass
-                    elif move == "ins_only":
-                        ins = _other(INS, ins, k)
-                    elif move == "name_only":
-                        name = _other(NAMES, name, k)
-                    elif move == "chain_keep_res":
-                        chain = _other(CHAINS, chain, k)
-                    elif move == "chain_reset":
-                        chain = _other(CHAINS, chain, k)
-                        res = 1
-                    elif move == "res_decrease":
-                        res -= 1 + k
-                    elif move == "res_jump":
-                        res += 2 + k
-                    elif move == "chain_back":
-                        chain = first_chain if chain != first_chain else _other(CHAINS, chain, k)
-                        res += k % 2
-                    elif move == "same_res_other_name_ins":
-                        name = _other(NAMES, name, k)
-                        ins = _other(INS, ins, k + 1)
-                length = draw(st.sampled_from([1, 1, 1, 2, 2, 3, 4, 6, 9]))
+            for move, k, length in [(None, 0, first_len)] + steps:
+                if move is None or move == "merge":
+                    pass
+                elif move == "next_res":
+                    res += 1
+                    name = NAMES[k % len(NAMES)]
+                    ins = ""
+                elif move == "ins_only":
+                    ins = _other(INS, ins, k)
+                elif move == "name_only":
+                    name = _other(NAMES, name, k)
+                elif move == "chain_keep_res":
+                    chain = _other(CHAINS, chain, k)
+                elif move == "chain_reset":
+                    chain = _other(CHAINS, chain, k)
+                    res = 1
+                elif move == "res_decrease":
+                    res -= 1 + k
+                elif move == "res_jump":
+                    res += 2 + k
+                elif move == "chain_back":
+                    chain = first_chain if chain != first_chain else _other(CHAINS, chain, k)
+                    res += k % 2
+                elif move == "same_res_other_name_ins":
+                    name = _other(NAMES, name, k)
+                    ins = _other(INS, ins, k + 1)
                 length = min(length, max_atoms - total)
                 if length <= 0:
                     break
@@ -552,23 +556,24 @@ def st_graph(tier):
             edges.extend((a + n, b + n) for a, b in local)
             n += size
         perm = draw(st.permutations(list(range(n)))) if n else []
+        # orientation and bond type do not matter for connectivity: bulk randomness from a drawn seed
+        rng = np.random.default_rng(draw(st.integers(0, 2**31 - 1)))
         bonds = []
         for a, b in edges:
             a, b = perm[a], perm[b]
-            if draw(st.booleans()):
+            if rng.integers(0, 2):
                 a, b = b, a
-            bonds.append([a, b, draw(st.integers(0, 9))])
+            bonds.append([a, b, int(rng.integers(0, 10))])
         # a few extra bonds (may join components or close rings) and duplicates
         if n >= 2:
             for ra, rb in draw(st.lists(st.tuples(st.integers(0, 10**6), st.integers(0, 10**6)), max_size=3)):
                 a = ra % n
                 b = (a + 1 + rb % (n - 1)) % n
-                bonds.append([a, b, draw(st.integers(0, 9))])
+                bonds.append([a, b, int(rng.integers(0, 10))])
         if bonds and draw(st.booleans()):
             a, b, t = bonds[draw(st.integers(0, len(bonds) - 1))]
             bonds.append([b, a, (t + 1) % 10])
-        order = draw(st.permutations(list(range(len(bonds))))) if bonds else []
-        bonds = [bonds[i] for i in order]
+        bonds = [bonds[i] for i in rng.permutation(len(bonds))]
         return {
             "n": n,
             "bonds": bonds,
@@ -829,8 +834,8 @@ SUBS = [
         "residues",
         st_annotated,
         run_residues,
-        quick=4000,
-        thorough=160000,
+        quick=3000,
+        thorough=120000,
         rule=">= 3 reference residues of differing size and a res id that occurs in two chain ids",
         clauses="residue boundaries; start/mask/position of an atom's residue; count; names; iteration and "
         "concatenation; apply per residue; spread; empty arrays",
@@ -839,8 +844,8 @@ SUBS = [
         "chains",
         st_annotated,
         run_chains,
-        quick=3000,
-        thorough=120000,
+        quick=2500,
+        thorough=100000,
         rule=">= 3 reference chains of differing size and a chain id that labels two separate chains",
         clauses="chain boundaries (chain id changes or res id decreases); the same derived views for chains",
     ),
@@ -848,8 +853,8 @@ SUBS = [
         "molecules",
         st_graph,
         run_molecules,
-        quick=3000,
-        thorough=120000,
+        quick=2500,
+        thorough=100000,
         rule=">= 2 connected components and at least one cycle",
         clauses="molecules == connected components; index, mask and iterator forms; AtomArray, stack and BondList input",
     ),
